@@ -124,7 +124,13 @@ def variational_case(prog, perm, return_best):
     return res[0].params, res[1], P
 
 
-def decide_variational(prog, max_len=5):
+def _bound(quick, thorough):
+    from . import shapeexec
+    return thorough if shapeexec.THOROUGH[0] else quick
+
+
+def decide_variational(prog, max_len=None):
+    max_len = _bound(5, 6) if max_len is None else max_len
     """-> ("holds", n) | ("violated", rule suffix, msg) | None when outside the evaluated subset."""
     n_cases = 0
     for n in range(0, max_len + 1):
@@ -396,7 +402,9 @@ def decide_data_handling(prog):
     return ("holds", n_cases)
 
 
-def decide_data(prog, max_len=5, patiences=(0, 1, 2)):
+def decide_data(prog, max_len=None, patiences=None):
+    max_len = _bound(5, 6) if max_len is None else max_len
+    patiences = _bound((0, 1, 2), (0, 1, 2, 3)) if patiences is None else patiences
     """C16: fit_to_data on every strict ordering of 0..max_len validation losses x max_patience x return_best.
     -> ("holds", n) | ("violated", rule suffix, msg) | None."""
     n_cases = 0
